@@ -1255,9 +1255,17 @@ def sym_paths(fv, root, limit=60000):
         def cur(t):
             return subst(t, st) if st else t
 
+        feasible = True
+        seen_c = {}
         for e in ev:
             if e[0] == "cond":
-                sp.conds.append((cur(fv.term(e[1])), e[2], e[1]))
+                ct = cur(fv.term(e[1]))
+                # the same pure term tested twice with opposite outcomes: infeasible path
+                if seen_c.get(ct, e[2]) != e[2]:
+                    feasible = False
+                    break
+                seen_c[ct] = e[2]
+                sp.conds.append((ct, e[2], e[1]))
             elif e[0] == "arm":
                 m, i = e[1], e[2]
                 sp.conds.append((("arm", cur(fv.term(m["e"])), pat_term(m["arms"][i]["pat"])), True, m))
@@ -1292,6 +1300,8 @@ def sym_paths(fv, root, limit=60000):
                 elif k == "ret":
                     sp.ret = cur(fv.term(n["e"])) if n.get("e") is not None else ("unit",)
                 sp.events.append(("ev", n))
+        if not feasible:
+            continue
         sp.state = st
         sp.exit = ex
         out.append(sp)
